@@ -96,6 +96,12 @@ class BaseListener:
     def __repr__(self):
         return self.label
 
+    def __hash__(self):
+        # deterministic (labels are strings, PYTHONHASHSEED is fixed): the
+        # iteration order of desper's listener sets must not depend on
+        # object addresses, or replays of one history could differ
+        return hash(self.label)
+
 
 def _listener_class(bits):
     events = [EVENTS[i] for i in range(3) if bits >> i & 1]
